@@ -69,7 +69,11 @@ impl ZkirRelation {
 
         // If the public input types are not known, we can initialize them with an
         // in-circuit parser pass.
-        dummy_synthesize_run(&MidnightCircuit::from_relation(self))?;
+        // (`MidnightCircuit::from_relation` cannot be used here: it searches for the optimal
+        // `max_bit_len` through the cost model, which panics if the program does not
+        // synthesize. The public input types do not depend on `max_bit_len`.)
+        let circuit = MidnightCircuit::new(self, Value::unknown(), Value::unknown(), Some(8));
+        dummy_synthesize_run(&circuit)?;
         let pi_types = self.public_input_types.borrow().clone();
         assert_eq!(pis.len(), pi_types.len());
         Ok(pis.into_iter().zip(pi_types).collect())
